@@ -56,7 +56,7 @@ Lemma emit_at p f k it bs : assemble_full enc p = XOk f ->
   nth_error (f_items f) k = Some it -> nth_error (f_chunks f) k = Some bs ->
   emit_item enc (f_exports f) (f_syms f) it = XOk bs.
 Proof.
-  intros H H1 H2. destruct (assemble_full_inv _ _ _ H) as [st [dv [_ [_ [_ [_ [_ [_ [He _]]]]]]]]].
+  intros H H1 H2. destruct (assemble_full_inv _ _ _ H) as [st [dv [_ [_ [_ [_ [_ [He _]]]]]]]].
   destruct (xmapM_nth _ _ _ He) as [_ N]. destruct (N _ _ H1) as [y [Hy E]]. congruence.
 Qed.
 
